@@ -11,6 +11,14 @@ package redisemu
 //@ ghostfield redisDict.scratch bool
 //@ ghost held bool
 //@ ghost mutated bool
+// C10: the watched-key version (storeKey.id / absence) changed
+//@ ghost bumped bool
+//@ ghost removedKey bool
+// some keyspace lookup of this command found nothing (set by getStoreKey, sticky)
+//@ ghost lookupAbsent bool
+// the keyspace table of the command's store
+//@ ghost ks *redisDict
+//@ onwrite dataStore.dataObjectNumber set bumped
 
 // store state may only be touched while the store lock is held
 //@ guarded dataStore.data dataStore.dataObjectNumber dataStore.waitingClients dataStore.cursors redisDict.* redisDictItem.* storeKey.* storeList.* listItem.* by held
@@ -97,6 +105,7 @@ package redisemu
 //@ ensures rd.count >= 0
 //@ effect if exists : rd.dirty = true
 //@ effect if exists && !rd.scratch : mutated = true
+//@ effect if exists && rd == ks : removedKey = true
 
 //@ func redisDict.createIterator
 //@ trusted
@@ -149,6 +158,18 @@ package redisemu
 //@ modifies storeKey.lastAccess
 //@ ensures exists == (sk != nil)
 //@ ensures exists ==> skWF(sk)
+//@ effect if !exists : lookupAbsent = true
+
+//@ func dataStoreCommand.setModified
+//@ prop C08 C16
+//@ guards on
+//@ safetyprop C13
+//@ requires dscOK(dsc)
+//@ requires [C08,C16] locked: held
+//@ modifies redisDict.dirty dataStore.dataObjectNumber storeKey.id storeKey.lastAccess ghost.mutated ghost.bumped ghost.lookupAbsent
+//@ ensures [C19] dirty: dsc.ds.data.dirty
+//@ ensures [C10] ver: bumped || lookupAbsent
+//@ ensures [C10] ver.mono: (old(bumped) ==> bumped) && (old(mutated) ==> mutated) && (old(lookupAbsent) ==> lookupAbsent)
 
 //@ func dataStoreCommand.getKeyObjectUnlocked
 //@ prop C08 C06
@@ -156,10 +177,10 @@ package redisemu
 //@ safetyprop C13
 //@ requires dscOK(dsc)
 //@ requires [C08,C16] locked: held
-//@ modifies storeKey.lastAccess
+//@ modifies storeKey.lastAccess ghost.lookupAbsent
 //@ ensures exists == (sk != nil)
 //@ ensures exists ==> skWF(sk)
-//@ ensures held
+//@ ensures [C10] absent.mono: old(lookupAbsent) ==> lookupAbsent
 
 //@ func dataStoreCommand.setDirty
 //@ prop C08 C19
@@ -204,7 +225,7 @@ package redisemu
 //@ safetyprop C13
 //@ requires ds != nil && ds.data != nil && !ds.data.scratch
 //@ requires [C08,C16] locked: held
-//@ modifies dataStore.dataObjectNumber storeKey redisDict redisDictItem alloc ghost.mutated
+//@ modifies dataStore.dataObjectNumber storeKey redisDict redisDictItem alloc ghost.mutated ghost.bumped
 //@ ensures result != nil && result.flags == 0 && result.payload == nil
-//@ ensures mut: mutated
+//@ ensures mut: mutated && bumped
 //@ ensures dirty: ds.data.dirty
